@@ -194,8 +194,71 @@ Definition builtin_scalar_ok (name : str) (v : value) : bool :=
   else if str_eqb name (s "ID") then (match v with VString _ _ | VInt _ _ => true | _ => is_null end)
   else true.
 
-(** the loop over the expected fields of an input object: (diagnostics pushed, res, additional_info, seen_fields) *)
-Record ioacc := mkIo { io_errs : list cerr; io_res : bool; io_info : list (pos * emsg); io_seen : nat }.
+Definition is_some {A} (o : option A) : bool := match o with Some _ => true | None => false end.
+Definition iv_required (d : inputvaldef) : bool :=
+  ty_is_nonnull (iv_type d) && (match iv_default d with None => true | Some _ => false end).
+
+(** value.fields.iter().find(|(key,_)| ef.name == key.name).map(|(_, v)| cv(v, ef.type)) *)
+Definition look_field (cv : value -> ty -> list cerr) (ef : inputvaldef) :=
+  fix ff (l : list (ident * value)) : option (list cerr) :=
+    match l with
+    | [] => None
+    | (k, fv) :: r => if str_eqb (iname (iv_name ef)) (iname k) then Some (cv fv (iv_type ef)) else ff r
+    end.
+
+(** is_value_compatible_type_def, InputObject case with an ObjectValue: (diagnostics pushed, compatible?, additional_info) *)
+Definition input_object_check (cv : value -> ty -> list cerr) (fields : list inputvaldef) (fs : list (ident * value))
+  : list cerr * bool * list (pos * emsg) :=
+  let look := fun ef => look_field cv ef fs in
+  (* diagnostics pushed by the nested check_value calls, in field-definition order *)
+  let errs := flat_map (fun ef => match look ef with Some es => es | None => [] end) fields in
+  (* res stays true iff no required field is missing *)
+  let res := forallb (fun ef => match look ef with Some _ => true | None => negb (iv_required ef) end) fields in
+  let info_req := flat_map (fun ef => match look ef with
+                                    | Some _ => []
+                                    | None => if iv_required ef
+                                              then [(ipos (iv_name ef), RequiredFieldNotSpecified (iname (iv_name ef)))]
+                                              else [] end) fields in
+  let seen := length (filter (fun ef => is_some (look ef)) fields) in
+  let extraneous := Nat.ltb seen (length fs) in
+  let info :=
+    if extraneous
+    then info_req ++
+         flat_map (fun kv : ident * value =>
+           if existsb (fun f => str_eqb (iname (iv_name f)) (iname (fst kv))) fields then []
+           else [(ipos (fst kv), UnknownField (iname (fst kv)))]) fs
+    else info_req in
+  (errs, res && negb extraneous, info).
+
+(** check_value, expected type Named(n): the `definitions.get_type` lookup and is_value_compatible_type_def;
+    [cv] is check_value itself (for the fields of an input-object literal), [t] = TNamed n (for the message) *)
+Definition check_named (cv : value -> ty -> list cerr) (doc : tsdoc) (v : value) (t : ty) (n : ident) : list cerr :=
+  match first_type doc (iname n) with
+  | None => [mkErr TypeSystemError (ipos n) [(ipos n, UnknownType (iname n))]]
+  | Some td =>
+      let mismatch info := [mkErr (TypeMismatch (ty_to_string t)) (value_pos v) info] in
+      match td with
+      | TDScalar _ _ nm _ _ => if builtin_scalar_ok (iname nm) v then [] else mismatch []
+      | TDObject _ _ _ _ _ _ _ | TDInterface _ _ _ _ _ _ _ | TDUnion _ _ _ _ _ _ => mismatch []
+      | TDEnum _ _ nm _ vals _ =>
+          match v with
+          | VNull _ => []
+          | VEnum p x =>
+              if forallb (fun m => negb (str_eqb (iname (ev_name m)) x)) vals
+              then [mkErr (UnknownEnumMember x (iname nm)) p [(ipos nm, DefinitionPos (iname nm))]]
+              else []
+          | _ => mismatch []
+          end
+      | TDInput _ _ _ _ fields _ =>
+          match v with
+          | VNull _ => []
+          | VObject _ fs =>
+              let '(errs, ok, info) := input_object_check cv fields fs in
+              errs ++ (if ok then [] else mismatch info)
+          | _ => mismatch []
+          end
+      end
+  end.
 
 Fixpoint check_value (doc : tsdoc) (v : value) {struct v} : ty -> list cerr :=
   fix on_ty (t : ty) {struct t} : list cerr :=
@@ -214,57 +277,7 @@ Fixpoint check_value (doc : tsdoc) (v : value) {struct v} : ty -> list cerr :=
           | VNull _ => []
           | _ => on_ty inner
           end
-      | TNamed n =>
-          match first_type doc (iname n) with
-          | None => [mkErr TypeSystemError (ipos n) [(ipos n, UnknownType (iname n))]]
-          | Some td =>
-              let mismatch info := [mkErr (TypeMismatch (ty_to_string t)) (value_pos v) info] in
-              match td with
-              | TDScalar _ _ nm _ _ => if builtin_scalar_ok (iname nm) v then [] else mismatch []
-              | TDObject _ _ _ _ _ _ _ | TDInterface _ _ _ _ _ _ _ | TDUnion _ _ _ _ _ _ => mismatch []
-              | TDEnum _ _ nm _ vals _ =>
-                  match v with
-                  | VNull _ => []
-                  | VEnum p x =>
-                      if forallb (fun m => negb (str_eqb (iname (ev_name m)) x)) vals
-                      then [mkErr (UnknownEnumMember x (iname nm)) p [(ipos nm, DefinitionPos (iname nm))]]
-                      else []
-                  | _ => mismatch []
-                  end
-              | TDInput _ _ _ _ fields _ =>
-                  match v with
-                  | VNull _ => []
-                  | VObject _ fs =>
-                      let acc :=
-                        fold_left (fun (a : ioacc) (ef : inputvaldef) =>
-                          match (fix ff (l : list (ident * value)) : option (list cerr) :=
-                                   match l with
-                                   | [] => None
-                                   | (k, fv) :: r =>
-                                       if str_eqb (iname (iv_name ef)) (iname k)
-                                       then Some (check_value doc fv (iv_type ef)) else ff r
-                                   end) fs with
-                          | None =>
-                              if ty_is_nonnull (iv_type ef) && (match iv_default ef with None => true | Some _ => false end)
-                              then mkIo (io_errs a) false
-                                        (io_info a ++ [(ipos (iv_name ef), RequiredFieldNotSpecified (iname (iv_name ef)))])
-                                        (io_seen a)
-                              else a
-                          | Some es => mkIo (io_errs a ++ es) (io_res a) (io_info a) (S (io_seen a))
-                          end) fields (mkIo [] true [] 0) in
-                      let extraneous := Nat.ltb (io_seen acc) (length fs) in
-                      let info :=
-                        if extraneous
-                        then io_info acc ++
-                             flat_map (fun kv : ident * value =>
-                               if existsb (fun f => str_eqb (iname (iv_name f)) (iname (fst kv))) fields then []
-                               else [(ipos (fst kv), UnknownField (iname (fst kv)))]) fs
-                        else io_info acc in
-                      io_errs acc ++ (if io_res acc && negb extraneous then [] else mismatch info)
-                  | _ => mismatch []
-                  end
-              end
-          end
+      | TNamed n => check_named (check_value doc) doc v t n
       end
     end.
 
@@ -275,6 +288,17 @@ Fixpoint find_arg (key : str) (al : list (ident * value)) : option value :=
   | (k, v) :: r => if str_eqb key (iname k) then Some v else find_arg key r
   end.
 
+(** diagnostics of one iteration of the loop over the argument definitions *)
+Definition arg_errs (doc : tsdoc) (al : list (ident * value)) (argument_pos : pos) (d : inputvaldef) : list cerr :=
+  match find_arg (iname (iv_name d)) al with
+  | None =>
+      if iv_required d
+      then [mkErr (RequiredArgumentNotSpecified (iname (iv_name d))) argument_pos
+                  [(ipos (iv_name d), DefinitionPos (iname (iv_name d)))]]
+      else []
+  | Some v => check_value doc v (iv_type d)
+  end.
+
 Definition check_arguments (doc : tsdoc) (parent_pos : pos) (parent_name kind : str)
            (args : option arguments) (defs : list inputvaldef) : list cerr :=
   match args, defs with
@@ -283,17 +307,9 @@ Definition check_arguments (doc : tsdoc) (parent_pos : pos) (parent_name kind : 
   | _, _ =>
       let argument_pos := match args with None => parent_pos | Some a => args_pos a end in
       let al := match args with None => [] | Some a => args_list a end in
-      let '(errs, seen) :=
-        fold_left (fun (acc : list cerr * nat) (d : inputvaldef) =>
-          match find_arg (iname (iv_name d)) al with
-          | None =>
-              if ty_is_nonnull (iv_type d) && (match iv_default d with None => true | Some _ => false end)
-              then (fst acc ++ [mkErr (RequiredArgumentNotSpecified (iname (iv_name d))) argument_pos
-                                      [(ipos (iv_name d), DefinitionPos (iname (iv_name d)))]], snd acc)
-              else acc
-          | Some v => (fst acc ++ check_value doc v (iv_type d), S (snd acc))
-          end) defs ([], 0) in
-      errs ++
+      (* seen_args = number of argument definitions for which an argument was found *)
+      let seen := length (filter (fun d => is_some (find_arg (iname (iv_name d)) al)) defs) in
+      flat_map (arg_errs doc al argument_pos) defs ++
       (if Nat.ltb seen (length al)
        then flat_map (fun kv : ident * value =>
               if forallb (fun d => negb (str_eqb (iname (iv_name d)) (iname (fst kv)))) defs
@@ -325,41 +341,44 @@ Definition check_directives (doc : tsdoc) (ds : list directive) (loc : str) : li
 (** * type_system_checker/mod.rs *)
 Definition unsco (n : ident) : list cerr := if starts_uu (iname n) then [err UnscoUnsco (ipos n)] else [].
 
-Fixpoint check_args_def_aux (doc : tsdoc) (seen : list str) (ivs : list inputvaldef) : list cerr :=
-  match ivs with
+(** the common shape of the loops that keep a `seen` vector of names:
+      if seen.contains(name) { push DuplicatedName } else { seen.push(name) }
+    [body dup x] = the diagnostics of one iteration, [dup] = whether the name was already seen *)
+Fixpoint seen_loop {A} (name : A -> str) (body : bool -> A -> list cerr) (seen : list str) (l : list A) : list cerr :=
+  match l with
   | [] => []
-  | v :: r =>
-      let name := iname (iv_name v) in
-      let tn := ty_unwrapped (iv_type v) in
-      unsco (iv_name v) ++
-      (if mem name seen then [err (DuplicatedName name) (ipos (iv_name v))] else []) ++
-      (match inout_kind doc (iname tn) with
-       | None => [err (UnknownType (iname tn)) (ty_pos (iv_type v))]
-       | Some k => if is_input_kind k then [] else [err (NoOutputType (iname tn)) (ty_pos (iv_type v))]
-       end) ++
-      check_directives doc (iv_dirs v) (s "ARGUMENT_DEFINITION") ++
-      check_args_def_aux doc (if mem name seen then seen else name :: seen) r
+  | x :: r =>
+      body (mem (name x) seen) x ++
+      seen_loop name body (if mem (name x) seen then seen else name x :: seen) r
   end.
-Definition check_args_def (doc : tsdoc) (ivs : list inputvaldef) : list cerr := check_args_def_aux doc [] ivs.
+Definition dup_err (dup : bool) (n : ident) : list cerr :=
+  if dup then [err (DuplicatedName (iname n)) (ipos n)] else [].
+
+Definition args_def_body (doc : tsdoc) (dup : bool) (v : inputvaldef) : list cerr :=
+  let tn := ty_unwrapped (iv_type v) in
+  unsco (iv_name v) ++
+  dup_err dup (iv_name v) ++
+  (match inout_kind doc (iname tn) with
+   | None => [err (UnknownType (iname tn)) (ty_pos (iv_type v))]
+   | Some k => if is_input_kind k then [] else [err (NoOutputType (iname tn)) (ty_pos (iv_type v))]
+   end) ++
+  check_directives doc (iv_dirs v) (s "ARGUMENT_DEFINITION").
+Definition check_args_def (doc : tsdoc) (ivs : list inputvaldef) : list cerr :=
+  seen_loop (fun v => iname (iv_name v)) (args_def_body doc) [] ivs.
 
 (** the per-field loop of check_object and check_interface (the two loops are textually identical) *)
-Fixpoint check_fields_aux (doc : tsdoc) (seen : list str) (fs : list fielddef) : list cerr :=
-  match fs with
-  | [] => []
-  | f :: r =>
-      let name := iname (fd_name f) in
-      let tn := ty_unwrapped (fd_type f) in
-      (if mem name seen then [err (DuplicatedName name) (ipos (fd_name f))] else []) ++
-      unsco (fd_name f) ++
-      check_directives doc (fd_dirs f) (s "FIELD_DEFINITION") ++
-      (match inout_kind doc (iname tn) with
-       | Some k => if is_output_kind k then [] else [err (NoInputType (iname tn)) (ty_pos (fd_type f))]
-       | None => [err (UnknownType (iname tn)) (ty_pos (fd_type f))]
-       end) ++
-      (match fd_args f with Some a => check_args_def doc a | None => [] end) ++
-      check_fields_aux doc (if mem name seen then seen else name :: seen) r
-  end.
-Definition check_fields (doc : tsdoc) (fs : list fielddef) : list cerr := check_fields_aux doc [] fs.
+Definition field_body (doc : tsdoc) (dup : bool) (f : fielddef) : list cerr :=
+  let tn := ty_unwrapped (fd_type f) in
+  dup_err dup (fd_name f) ++
+  unsco (fd_name f) ++
+  check_directives doc (fd_dirs f) (s "FIELD_DEFINITION") ++
+  (match inout_kind doc (iname tn) with
+   | Some k => if is_output_kind k then [] else [err (NoInputType (iname tn)) (ty_pos (fd_type f))]
+   | None => [err (UnknownType (iname tn)) (ty_pos (fd_type f))]
+   end) ++
+  (match fd_args f with Some a => check_args_def doc a | None => [] end).
+Definition check_fields (doc : tsdoc) (fs : list fielddef) : list cerr :=
+  seen_loop (fun f => iname (fd_name f)) (field_body doc) [] fs.
 
 (** types.rs: is_subtype on the first-wins Schema *)
 Fixpoint is_subtype (doc : tsdoc) (target other : ty) {struct target} : option bool :=
@@ -450,44 +469,31 @@ Definition check_implements (doc : tsdoc) (self_check : bool) (name : ident) (fi
     | Some _ => [err (NotInterface (iname i)) (ipos i)]
     end) implements.
 
-Fixpoint check_members_aux (doc : tsdoc) (seen : list str) (ms : list ident) : list cerr :=
-  match ms with
-  | [] => []
-  | m :: r =>
-      (if mem (iname m) seen then [err (DuplicatedName (iname m)) (ipos m)] else []) ++
-      (match last_type doc (iname m) with
-       | None => [err (UnknownType (iname m)) (ipos m)]
-       | Some (TDObject _ _ _ _ _ _ _) => []
-       | Some _ => [err (NonObjectTypeUnionMember (iname m)) (ipos m)]
-       end) ++
-      check_members_aux doc (if mem (iname m) seen then seen else iname m :: seen) r
-  end.
+Definition member_body (doc : tsdoc) (dup : bool) (m : ident) : list cerr :=
+  dup_err dup m ++
+  (match last_type doc (iname m) with
+   | None => [err (UnknownType (iname m)) (ipos m)]
+   | Some (TDObject _ _ _ _ _ _ _) => []
+   | Some _ => [err (NonObjectTypeUnionMember (iname m)) (ipos m)]
+   end).
+Definition check_members (doc : tsdoc) (ms : list ident) : list cerr := seen_loop iname (member_body doc) [] ms.
 
-Fixpoint check_enum_values_aux (doc : tsdoc) (seen : list str) (vs : list enumvaldef) : list cerr :=
-  match vs with
-  | [] => []
-  | v :: r =>
-      let name := iname (ev_name v) in
-      (if mem name seen then [err (DuplicatedName name) (ipos (ev_name v))] else []) ++
-      check_directives doc (ev_dirs v) (s "ENUM_VALUE") ++
-      check_enum_values_aux doc (if mem name seen then seen else name :: seen) r
-  end.
+Definition enum_value_body (doc : tsdoc) (dup : bool) (v : enumvaldef) : list cerr :=
+  dup_err dup (ev_name v) ++ check_directives doc (ev_dirs v) (s "ENUM_VALUE").
+Definition check_enum_values (doc : tsdoc) (vs : list enumvaldef) : list cerr :=
+  seen_loop (fun v => iname (ev_name v)) (enum_value_body doc) [] vs.
 
-Fixpoint check_input_fields_aux (doc : tsdoc) (seen : list str) (fs : list inputvaldef) : list cerr :=
-  match fs with
-  | [] => []
-  | f :: r =>
-      let name := iname (iv_name f) in
-      let tn := ty_unwrapped (iv_type f) in
-      (if mem name seen then [err (DuplicatedName name) (ipos (iv_name f))] else []) ++
-      unsco (iv_name f) ++
-      check_directives doc (iv_dirs f) (s "INPUT_FIELD_DEFINITION") ++
-      (match inout_kind doc (iname tn) with
-       | None => [err (UnknownType (iname tn)) (ty_pos (iv_type f))]
-       | Some k => if is_input_kind k then [] else [err (NoOutputType (iname tn)) (ty_pos (iv_type f))]
-       end) ++
-      check_input_fields_aux doc (if mem name seen then seen else name :: seen) r
-  end.
+Definition input_field_body (doc : tsdoc) (dup : bool) (f : inputvaldef) : list cerr :=
+  let tn := ty_unwrapped (iv_type f) in
+  dup_err dup (iv_name f) ++
+  unsco (iv_name f) ++
+  check_directives doc (iv_dirs f) (s "INPUT_FIELD_DEFINITION") ++
+  (match inout_kind doc (iname tn) with
+   | None => [err (UnknownType (iname tn)) (ty_pos (iv_type f))]
+   | Some k => if is_input_kind k then [] else [err (NoOutputType (iname tn)) (ty_pos (iv_type f))]
+   end).
+Definition check_input_fields (doc : tsdoc) (fs : list inputvaldef) : list cerr :=
+  seen_loop (fun f => iname (iv_name f)) (input_field_body doc) [] fs.
 
 Definition check_typedef (doc : tsdoc) (t : typedef) : list cerr :=
   match t with
@@ -499,11 +505,11 @@ Definition check_typedef (doc : tsdoc) (t : typedef) : list cerr :=
       unsco name ++ check_directives doc dirs (s "INTERFACE") ++ check_fields doc fields ++
       check_implements doc true name fields impls
   | TDUnion _ _ name dirs members _ =>
-      unsco name ++ check_directives doc dirs (s "UNION") ++ check_members_aux doc [] members
+      unsco name ++ check_directives doc dirs (s "UNION") ++ check_members doc members
   | TDEnum _ _ name dirs vals _ =>
-      unsco name ++ check_directives doc dirs (s "ENUM") ++ check_enum_values_aux doc [] vals
+      unsco name ++ check_directives doc dirs (s "ENUM") ++ check_enum_values doc vals
   | TDInput _ _ name dirs fields _ =>
-      unsco name ++ check_directives doc dirs (s "INPUT_OBJECT") ++ check_input_fields_aux doc [] fields
+      unsco name ++ check_directives doc dirs (s "INPUT_OBJECT") ++ check_input_fields doc fields
   end.
 
 (** * check_directive_recursion.rs (as fixed in efed6d0) *)
